@@ -208,6 +208,21 @@ func (e *Engine) globalImmutable(vr *types.Var) bool {
 
 // globalFacts adds axioms about a package-level variable from its initialiser (if it is never written).
 func (e *Engine) globalFacts(n string, vr *types.Var) {
+	if e.w.Pkgs[vr.Pkg().Path()] == nil {
+		// sentinel errors of packages outside the repository (io.EOF, os.ErrNotExist, fs.ErrInvalid, ...): non-nil, pairwise distinct
+		if _, isIface := types.Unalias(vr.Type()).Underlying().(*types.Interface); isIface && (strings.HasPrefix(vr.Name(), "Err") || vr.Name() == "EOF") {
+			e.stubsUsed["sentinel error "+vr.Pkg().Name()+"."+vr.Name()+": non-nil and distinct from the other sentinel errors"] = true
+			e.axioms = append(e.axioms, not(eq(sx("i_tid", n), "0")))
+			for _, o := range e.errGlobals {
+				// same-named sentinels of different packages may be one value (os.ErrNotExist = fs.ErrNotExist)
+				if !strings.HasSuffix(o, "_"+vr.Name()) {
+					e.axioms = append(e.axioms, not(eq(o, n)))
+				}
+			}
+			e.errGlobals = append(e.errGlobals, n)
+		}
+		return
+	}
 	init, pk := e.findGlobalInit(vr)
 	if init == nil || pk == nil || !e.globalImmutable(vr) {
 		return
